@@ -235,6 +235,11 @@ def schema_load_json(lib, I, schema_obj, cls, data, node):
                         c.assume(z3.Or(invalid, v <= vd.max))
                 elif isinstance(vd, LibObj) and vd.kind == "mm_oneof":
                     c.assume(z3.Or(invalid, z3.Or(*[v == I.to_term(x, t) for x in vd.choices])))
+                elif isinstance(vd, LibObj) and vd.kind == "mm_length" and t.kind == "str":
+                    from .mmalgo import length_ok
+                    c.assume(z3.Or(invalid, length_ok(I, vd, val)))
+                else:
+                    raise Unsupported(f"validator {vd!r} on field {name}")
             result[name] = val
             continue
         if not c.branch(I.d_contains(data, name), f"has-{name}"):
